@@ -157,6 +157,12 @@ pub struct Conn {
     /// simulated process' descriptor table (a forked child that inherited it): while > 0,
     /// close() by the server neither closes the connection nor removes its epoll registrations
     pub extra_refs: u32,
+    /// bytes the client has put into the connection so far
+    pub c2s_sent: u64,
+    /// real descriptors in flight from the client to the server (SCM_RIGHTS): (stream offset of
+    /// the byte they ride on, descriptor). Delivered with the receive that takes that byte; closed by
+    /// the "kernel" if the server closes the connection first.
+    pub passed: VecDeque<(u64, i32)>,
 }
 
 /// descriptor "numbers" under which registrations of closed-but-still-referenced descriptions
@@ -446,6 +452,8 @@ impl World {
             srv_read: 0,
             srv_written: 0,
             extra_refs: 0,
+            c2s_sent: 0,
+            passed: VecDeque::new(),
         });
         let id = self.conns.len() - 1;
         self.listeners[lid].backlog.push_back(id);
@@ -590,7 +598,47 @@ impl World {
     }
 
     pub fn client_send(&mut self, conn: usize, buf: &[u8]) -> Result<usize, i32> {
-        self.ep_write(conn, false, buf)
+        let r = self.ep_write(conn, false, buf);
+        if let Ok(n) = r {
+            self.conns[conn].c2s_sent += n as u64;
+        }
+        r
+    }
+
+    /// the client passes real descriptors (SCM_RIGHTS): they ride on the next byte it sends
+    pub fn client_pass_fds(&mut self, conn: usize, fds: &[i32]) {
+        let at = self.conns[conn].c2s_sent;
+        for fd in fds {
+            self.conns[conn].passed.push_back((at, *fd));
+        }
+        // a receiver that is already gone (accepted and closed): the message is never queued
+        if self.conns[conn].accepted && !self.conns[conn].server.open {
+            self.purge_passed(conn);
+        }
+    }
+
+    /// descriptors that arrived with the bytes the server has received so far (at most `room`)
+    pub fn take_passed(&mut self, fd: Fd, room: usize) -> Vec<i32> {
+        let conn = match self.stream_of(fd) {
+            Ok(c) => c,
+            Err(_) => return Vec::new(),
+        };
+        let upto = self.conns[conn].srv_read;
+        let mut out = Vec::new();
+        while out.len() < room {
+            match self.conns[conn].passed.front() {
+                Some((at, _)) if *at < upto => out.push(self.conns[conn].passed.pop_front().unwrap().1),
+                _ => break,
+            }
+        }
+        out
+    }
+
+    fn purge_passed(&mut self, conn: usize) {
+        for (_, fd) in self.conns[conn].passed.drain(..) {
+            // SAFETY: a real descriptor owned by the simulated kernel since the client passed it.
+            unsafe { libc::close(fd) };
+        }
     }
     pub fn client_recv(&mut self, conn: usize, max: usize) -> Result<Vec<u8>, i32> {
         self.ep_read(conn, false, max)
@@ -876,6 +924,8 @@ impl World {
                 conn_id = Some(c);
                 self.conns[c].server_fd = None;
                 self.ep_close(c, true);
+                // descriptors still in flight to a closed receiver are closed by the kernel
+                self.purge_passed(c);
             }
             FdObj::Listener(l) => {
                 self.listeners[l].open = false;
@@ -1190,5 +1240,13 @@ impl World {
 
     pub fn take_log(&mut self) -> Vec<LogEntry> {
         std::mem::take(&mut self.log)
+    }
+}
+
+impl Drop for World {
+    fn drop(&mut self) {
+        for c in 0..self.conns.len() {
+            self.purge_passed(c);
+        }
     }
 }
